@@ -848,6 +848,8 @@ def _stream_scan(prog: Program, f, eager_params: Dict[str, Set[str]]):
             return True
         if isinstance(e, ast.GeneratorExp):
             return any(is_stream(g.iter) for g in e.generators) or is_stream(e.elt)
+        if isinstance(e, ast.IfExp):
+            return is_stream(e.body) or is_stream(e.orelse)
         return False
 
     def holds_streams(e) -> bool:
